@@ -67,13 +67,13 @@ def _(c):
 # =============================================================================================== cache plumbing
 
 
-@contract("Vertex._qa_stats", "self:Vertex", props=("C05",))
+@contract("Vertex._qa_stats", "self:Vertex", props=("C05", "C10"))
 def _(c):
     o = c.normal(result=VOpaque("counters"))
     stats_monotone(o)
 
 
-@contract("Vertex._qa_neighbors_invalidate", "self:Vertex", props=("C05",))
+@contract("Vertex._qa_neighbors_invalidate", "self:Vertex", props=("C05", "C10"))
 def _(c):
     v = c.self
     o = c.normal()
